@@ -52,7 +52,8 @@ RULE = (
     "numpy elements; centre as tuple, list, 1-D / (1,2) ndarray, numpy scalars, 0-d arrays; sizes as lists mixing all of these; falsy but "
     "valid values (size 0, an all-zero extra coordinate, points on the northing axis); extra coordinates with NaN / +-inf at points "
     "whose easting/northing are finite (border points of the cloud included), each such call twinned with the two-coordinate call; "
-    "expanding sizes as one-shot iterables (reversed, map, generator, iter) declared to the monitor. Non-trivial rolling case = at least two windows with different "
+    "expanding sizes as one-shot iterables (reversed, map, generator, iter) declared to the monitor; a few large cases (more than 2048 "
+    "windows in one call, e.g. shape (50, 60); expanding windows on >= 1e4 and >= 1e5 points). Non-trivial rolling case = at least two windows with different "
     "selections, at least one decided inside and one decided outside (point, window) pair; non-trivial expanding case = at least two "
     "sizes with different selections. Distinct = hash of the coordinate arrays and the configuration."
 )
@@ -67,7 +68,8 @@ ASSUMPTIONS = [
     "the monitors read the argument arrays at return time and keep nothing between calls, so every return of a call history is judged against the arrays' current contents",
 ]
 FLOORS = {
-    # about 40 percent of the smallest value seen on the unchanged tree over seeds 0..9 (thorough = 20 x the quick workload)
+    # about 40 percent of the smallest value seen on the unchanged tree over seeds 0..9 (thorough = 20 x the quick workload,
+    # except the few 'large' cases whose number is fixed per tier)
     "quick": {
         "eval:rolling_window.centres": 690, "eval:rolling_window.index_form": 690, "eval:rolling_window.membership": 690,
         "eval:rolling_window.coverage": 415, "eval:expanding_window.index_form": 415,
@@ -112,6 +114,8 @@ FLOORS = {
         "eval:extras_ignored.expanding_window": 66, "expanding:class:sizes_one_shot_iterable_generator": 14,
         "expanding:class:sizes_one_shot_iterable_list_iterator": 13,
         "expanding:class:sizes_one_shot_iterable_list_reverseiterator": 21, "expanding:class:sizes_one_shot_iterable_map": 16,
+        "class:more_than_2048_windows_in_one_call": 13, "class:more_than_2048_windows_given_by_shape": 1,
+        "expanding:class:at_least_10000_points": 2, "expanding:class:at_least_100000_points": 1,
     },
     "thorough": {
         "eval:rolling_window.centres": 13800, "eval:rolling_window.index_form": 13800, "eval:rolling_window.membership": 13800,
@@ -158,6 +162,8 @@ FLOORS = {
         "eval:extras_ignored.expanding_window": 1320, "expanding:class:sizes_one_shot_iterable_generator": 280,
         "expanding:class:sizes_one_shot_iterable_list_iterator": 260,
         "expanding:class:sizes_one_shot_iterable_list_reverseiterator": 420, "expanding:class:sizes_one_shot_iterable_map": 320,
+        "class:more_than_2048_windows_in_one_call": 260, "class:more_than_2048_windows_given_by_shape": 2,
+        "expanding:class:at_least_10000_points": 8, "expanding:class:at_least_100000_points": 4,
     },
 }
 JOBS = {"quick": 1, "thorough": 8}
@@ -170,8 +176,8 @@ MAX_PAIRS = 1_500_000  # points x windows per call (workload keeps below; the mo
 
 def plan(tier):
     if tier == "quick":
-        return collections.OrderedDict(rolling=140, rolling_edge=50, expanding=80, expanding_edge=30, history=40)
-    return collections.OrderedDict(rolling=2800, rolling_edge=1000, expanding=1600, expanding_edge=600, history=800)
+        return collections.OrderedDict(rolling=140, rolling_edge=50, expanding=80, expanding_edge=30, history=40, large=3)
+    return collections.OrderedDict(rolling=2800, rolling_edge=1000, expanding=1600, expanding_edge=600, history=800, large=18)
 
 
 # ----------------------------------------------------------------------
@@ -642,6 +648,10 @@ def install(tap, run):
         if n_inside and n_outside and n_win >= 2 and (selected != selected[0:1]).any():
             run.mark_nontrivial("rolling", arrays[0], arrays[1], size, spacing, shape, region, adjust)
         run.observe_max("largest_windows_per_call", n_win)
+        if n_win > 2048:
+            run.count("class:more_than_2048_windows_in_one_call")
+            if shape is not None:
+                run.count("class:more_than_2048_windows_given_by_shape")
         run.observe_max("largest_points_per_call", n_pts)
 
     def post_expanding(ev):
@@ -767,6 +777,11 @@ def install(tap, run):
                           dict(base, entries=[i, j], point_index=pk, point=[float(x[pk]), float(y[pk])]), key="expanding:nesting")
         if len(sizes) >= 2 and (selected != selected[0:1]).any() and n_in and n_out:
             run.mark_nontrivial("expanding", arrays[0], arrays[1], centre, sizes)
+        run.observe_max("largest_expanding_window_point_count", x.size)
+        if x.size >= 10_000:
+            run.count("expanding:class:at_least_10000_points")
+        if x.size >= 100_000:
+            run.count("expanding:class:at_least_100000_points")
 
     tap.function(vc, "rolling_window", post=post_rolling, pre=pre_rolling)
     tap.function(vc, "expanding_window", post=post_expanding, pre=pre_expanding)
@@ -1390,6 +1405,50 @@ def _history_case(run, vc, rng):
                                "last_rolling_kwargs": first.get("rolling"), "centres_shape": list(out[0][0].shape)})
 
 
+def _large_case(run, vc, rng, index):
+    """Large counts judged by the membership monitors: > 2048 windows in one call, expanding windows on 1e4 / 1e5 points."""
+    kind = index % 3
+    if kind == 0:
+        n_pts = int(rng.integers(150, 450))
+        east, north = gen.cloud(rng, n_pts, scale=gen.log_uniform(rng, 1.0, 1e4), offset_factor=float(rng.choice([0.0, 1.0, 30.0])))
+        w, e, s, n = float(east.min()), float(east.max()), float(north.min()), float(north.max())
+        side = min(e - w, n - s)
+        size = float(side * rng.uniform(0.03, 0.12))
+        kwargs = {"size": size}
+        if index == 0 or rng.random() < 0.6:
+            kwargs["shape"] = (50, 60) if index == 0 else (int(rng.integers(46, 70)), int(rng.integers(46, 70)))
+        else:
+            kwargs["spacing"] = float(max(e - w, n - s) / rng.uniform(50, 64))
+            kwargs["adjust"] = str(rng.choice(["spacing", "region"]))
+        if rng.random() < 0.5:
+            kwargs["region"] = [w - 0.05 * (e - w), e + 0.05 * (e - w), s - 0.05 * (n - s), n + 0.05 * (n - s)]
+        coords = _layout(rng, [east, north] + _extras(rng, east))
+        out = _call_rolling(run, vc, coords, **kwargs)
+        run.sample("large_rolling", {"n_points": n_pts, "kwargs": kwargs, "centres_shape": None if out is None else list(out[0][0].shape)})
+    else:
+        if kind == 1:
+            rows, cols = int(rng.integers(100, 140)), int(rng.integers(100, 150))
+        else:
+            rows, cols = int(rng.integers(317, 340)), int(rng.integers(317, 330))
+        n_pts = rows * cols
+        scale = gen.log_uniform(rng, 1.0, 1e4)
+        east = rng.uniform(0, 1.0, n_pts) * scale + float(rng.choice([0.0, 30.0])) * scale
+        north = rng.uniform(0, 0.7, n_pts) * scale
+        centre = (float(rng.uniform(east.min(), east.max())), float(rng.uniform(north.min(), north.max())))
+        sizes = [float(v) for v in scale * rng.uniform(0.0, 1.6, int(rng.integers(3, 7)))]
+        if rng.random() < 0.5:
+            sizes.append(float(scale * 3))  # everything
+        flat = [east, north] + ([rng.normal(size=n_pts)] if rng.random() < 0.4 else [])
+        if rng.random() < 0.5:
+            flat = [a.reshape(rows, cols) for a in flat]
+        declared = sizes
+        if rng.random() < 0.3:
+            sizes, declared = _one_shot(rng, sizes)
+        out = vc.expanding_window(tuple(flat), center=_spell_centre(rng, *centre), sizes=sizes)
+        run.sample("large_expanding", {"n_points": n_pts, "shape": list(flat[0].shape), "center": centre, "sizes": declared,
+                                       "selected_per_size": [int(np.size(i[0])) for i in out]})
+
+
 def run_case(run, tap, stream, index, rng):
     import verde  # noqa: F401
     import verde.coordinates as vc
@@ -1407,6 +1466,8 @@ def run_case(run, tap, stream, index, rng):
     elif stream == "history":
         for _ in range(2):
             _history_case(run, vc, rng)
+    elif stream == "large":
+        _large_case(run, vc, rng, index)
     else:
         raise ValueError(stream)
 
